@@ -145,8 +145,103 @@ fn range_of(op: &Op) -> Option<(u64, u64)> {
     None
 }
 
-/// Draw a history of stream ops for an image.
-pub fn gen_ops(rng: &mut Rng, bytes: &[u8], m: &Model, max_ops: usize) -> Vec<OpRec> {
+/// "Cache pressure" history: k distinct byte ranges are queried first (k is biased to sit
+/// just below / at / above plausible capacity thresholds), then the multi-range accessors,
+/// which load several ranges and only afterwards fetch them. A cache that forgets, evicts
+/// or starts over at some fill level only shows under such a history.
+fn pressure_ops(rng: &mut Rng, bytes: &[u8], m: &Model) -> Vec<OpRec> {
+    let len = bytes.len() as u64;
+    let thresholds = [
+        3usize, 4, 5, 7, 8, 9, 15, 16, 17, 31, 32, 33, 47, 48, 49, 62, 63, 64, 65, 66, 95, 96,
+        97,
+    ];
+    // k <= 97: with the <= 14 ranges of the multi-range accessors the stream still sees
+    // fewer than MAX_DISTINCT_RANGES distinct ranges (C08's fixed-overhead budget)
+    let k = if rng.chance(2, 3) {
+        *rng.pick(&thresholds)
+    } else {
+        rng.urange(1, 97)
+    };
+    let mut ops: Vec<Op> = Vec::with_capacity(k + 16);
+    let multis = [
+        Op::SymbolTable,
+        Op::DynSymTable,
+        Op::SymVer,
+        Op::ShdrsWithStrtab,
+        Op::Dynamic,
+    ];
+    // sometimes prime with one multi-range accessor first (its ranges become old entries)
+    if rng.chance(1, 3) {
+        ops.push(rng.pick(&multis).clone());
+    }
+    let mut seen: HashSet<(u64, u64)> = HashSet::new();
+    let mut i: u64 = 0;
+    while seen.len() < k && i < 4 * k as u64 + 8 {
+        i += 1;
+        // real section ranges first, then synthetic in-file ranges
+        let (off, size) = if (i as usize) <= m.shdrs.len() && rng.chance(1, 2) {
+            let s = &m.shdrs[i as usize - 1];
+            (s.offset, s.size)
+        } else if len > 0 {
+            let off = rng.below(len);
+            (off, 1 + rng.below((len - off).min(24)))
+        } else {
+            (0, 0)
+        };
+        if off.checked_add(size).map(|e| e > len).unwrap_or(true) {
+            continue;
+        }
+        if seen.insert((off, size)) {
+            ops.push(Op::SectionData(Shdr {
+                typ: hdr::SHT_PROGBITS,
+                offset: off,
+                size,
+                addralign: 1,
+                ..Default::default()
+            }));
+        }
+    }
+    // the multi-range accessors, in seeded order, each possibly twice
+    let mut order: Vec<Op> = multis.to_vec();
+    for j in (1..order.len()).rev() {
+        let x = rng.usize_below(j + 1);
+        order.swap(j, x);
+    }
+    for o in order {
+        ops.push(o.clone());
+        if rng.chance(1, 3) {
+            ops.push(o);
+        }
+    }
+    // and a few of the early ranges again
+    for _ in 0..rng.urange(0, 4) {
+        if !ops.is_empty() {
+            let o = ops[rng.usize_below(ops.len())].clone();
+            ops.push(o);
+        }
+    }
+    let _ = bytes;
+    ops.into_iter()
+        .enumerate()
+        .map(|(i, op)| OpRec {
+            id: (i + 1) as u32,
+            op,
+        })
+        .collect()
+}
+
+/// Draw a history of stream ops for an image. `pressure_permille`: how often (per 1000)
+/// the history is a cache-pressure history instead of a mixed one.
+pub fn gen_ops(
+    rng: &mut Rng,
+    bytes: &[u8],
+    m: &Model,
+    max_ops: usize,
+    pressure_permille: u64,
+) -> Vec<OpRec> {
+    if rng.below(1000) < pressure_permille {
+        return pressure_ops(rng, bytes, m);
+    }
     let len = bytes.len() as u64;
     let names = section_names(bytes, m);
     let n_ops = rng.urange(1, max_ops.max(1));
